@@ -4,4 +4,6 @@ go 1.17
 
 require github.com/arnodel/golua v0.0.0
 
+require github.com/arnodel/strftime v0.1.6 // indirect
+
 replace github.com/arnodel/golua => /repo
